@@ -4,7 +4,7 @@ import json
 import math
 from fractions import Fraction as F
 
-import numpy as np
+from ..core import NP as np
 
 from .. import core, objects as O
 from ..core import q, qs, guarded, same, unq
